@@ -318,8 +318,10 @@ static bool model_step_inner(Model &m, Op &op) {
         f.mode = FM_DEFINE; f.in_redef = true; return true;
     }
     case OP_ENDDEF: case OP_ENDDEF2: if (!f.open || f.mode != FM_DEFINE) return skip(); do_enddef(f); m.snap_state[op.file] = 0; return true;
-    case OP_BEGIN_INDEP: if (!f.open || f.mode != FM_COLL) return skip(); f.mode = FM_INDEP; return true;
-    case OP_END_INDEP: if (!f.open || f.mode != FM_INDEP) return skip(); f.mode = FM_COLL; sync_numrecs(f); return true;
+    // collective and independent accesses go through different MPI file handles (and, with aggregation, through other ranks): data written
+    // before a mode switch is only ordered with accesses after it by the documented sync-barrier-sync, even on the writing rank itself
+    case OP_BEGIN_INDEP: if (!f.open || f.mode != FM_COLL) return skip(); f.mode = FM_INDEP; for (auto &v : f.vars) for (auto &c : v.cells) if (c.wmask) c.wmask = 0xff; return true;
+    case OP_END_INDEP: if (!f.open || f.mode != FM_INDEP) return skip(); f.mode = FM_COLL; sync_numrecs(f); for (auto &v : f.vars) for (auto &c : v.cells) if (c.wmask) c.wmask = 0xff; return true;
     case OP_SYNC: if (!f.open || f.mode == FM_DEFINE) return skip(); sync_numrecs(f); return true;
     case OP_SYNC_NUMRECS: if (!f.open || f.mode == FM_DEFINE) return skip(); sync_numrecs(f); return true;
     case OP_FLUSH: if (!f.open || f.mode == FM_DEFINE) return skip(); return true;
@@ -550,7 +552,8 @@ static bool model_step_inner(Model &m, Op &op) {
                     w.exp_status.push_back(NC_NOERR);
                     if (s >= 0 && rk.reqs[s].live) done[r].push_back(s);
                 }
-                if (cancel) for (auto &st : w.exp_status) if (st == NC_EINVAL_REQUEST) { /* cancel reports unknown ids the same way */ }
+                bool bad = false; for (auto st : w.exp_status) if (st == NC_EINVAL_REQUEST) bad = true;
+                if (bad) { w.exp_rc = NC_EINVAL_REQUEST; done[r].clear(); w.exp_status.clear(); /* nothing named next to an invalid id is committed; per-entry statuses unspecified */ }
             } else for (int s = 0; s < (int)rk.reqs.size(); s++) if (rk.reqs[s].live && (w.mode == 1 || (w.mode == 2 && rk.reqs[s].kind == K_IGET) || (w.mode == 3 && rk.reqs[s].kind != K_IGET))) done[r].push_back(s);
         }
         std::map<std::pair<int, long long>, int> touched;   // (var, elem) written by a put completing in this op
@@ -573,6 +576,12 @@ static bool model_step_inner(Model &m, Op &op) {
                 expect_get(f, v, r, *pa);
                 m.pending_reads.push_back({q.opidx, r, op.file, q.var});
                 for (size_t k = 0; k < pa->elems.size(); k++) if (touched.count(std::make_pair(q.var, pa->elems[k]))) pa->estate[k] = 2;
+                // elements that another iget completed by the same wait on this rank also reads
+                for (int s2 : done[r]) {
+                    if (s2 == s) continue; MReq &q2 = f.ranks[r].reqs[s2]; if (q2.kind != K_IGET || q2.var != q.var) continue;
+                    std::vector<long long> other(q2.acc.elems); std::sort(other.begin(), other.end());
+                    for (size_t k = 0; k < pa->elems.size(); k++) if (std::binary_search(other.begin(), other.end(), pa->elems[k])) { if (m.strict_iget_overlap) { if (pa->estate[k] != 2) pa->estate[k] |= 0x10; } else pa->estate[k] = 2; }
+                }
             }
         }
         for (int r = 0; r < m.nprocs; r++) for (int s : done[r]) { MReq &q = f.ranks[r].reqs[s]; if (q.kind == K_BPUT) f.ranks[r].abuf_used -= q.abuf_bytes; q.live = false; }
@@ -589,6 +598,7 @@ void annotate(Model &m, Program &p) {
     m.init(p.cfg.sim.nprocs, std::min(nslots, 64));
     auto it = p.cfg.sim.env.find("PNETCDF_RELAX_COORD_BOUND");
     m.strict_coord = (it != p.cfg.sim.env.end() && it->second == "0");
+    m.strict_iget_overlap = (p.cfg.flags & 1) != 0;
     m.cur_ops = &p.ops;
     for (auto &op : p.ops) model_step(m, op);
     m.cur_ops = nullptr;
